@@ -51,6 +51,22 @@ def run():
     return rep
 
 
+def simulation(rep, ctx, variants=None):
+    """E2 path enumeration of execute replayed on the model file system (obligations/C05_sim.py); replay = native fault plans"""
+    from obligations import C05_sim
+    reps = {v: e1.fs_replayer("faults", {"w": op}) for v, op in (("Remove", "remove"), ("SoftLink", "soft"), ("HardLink", "link"), ("Move", "move"))}
+
+    def replayer(o, variant):
+        ok, det = reps[variant]({"harness": "w"}, None)
+        o.cex = dict(o.cex or {}, native_replay=det)
+        if ok is True:
+            o.stats["traces_validated"] = 1
+            o.detail += "; replayed natively: " + det
+        else:
+            o.detail += "; native fault plans: " + str(det)
+    C05_sim.add(rep, ctx, replayer, variants)
+
+
 def wrappers(rep):
     """E2 obligations on the code the Kani harnesses stub (thin std::fs wrappers, temp_file); replay = the native fault plans"""
     import oblig
@@ -73,6 +89,7 @@ def wrappers(rep):
         ctxw = oblig.Ctx()
         C05_e2.add(rep, ctxw, replayer)
         C05_e2.reflink_protocol(rep, ctxw)
+        simulation(rep, ctxw)
     except Inconclusive as ex:
         o = Obligation("file-system wrappers", "E2 mirsym/z3")
         o.verdict, o.detail = "inconclusive", str(ex)
